@@ -115,7 +115,7 @@ def call_main(main, cwd, **kwargs):
         os.chdir(old)
 
 
-def run_ncs_build(args, cwd, core_config=None, timeout=120):
+def run_ncs_build(args, cwd, core_config=None, timeout=120, cores=("sysbuild",)):
     """ncs/build.py as the NCS build system starts it (a script with --core / --zephyr-base and a sub-command), in its own interpreter"""
     env = dict(os.environ)
     env["PYTHONPATH"] = str(REPO)
@@ -125,7 +125,7 @@ def run_ncs_build(args, cwd, core_config=None, timeout=120):
         if not os.path.exists(kc):
             with open(kc, "w") as fh:
                 fh.write("CONFIG_BOARD=\"nrf54h20dk\"\n")
-    cmd = [PY, str(REPO / "ncs" / "build.py"), str(args[0]), "--core", f"sysbuild,,,{kc}", "--zephyr-base", str(cwd)] + [str(a) for a in args[1:]]
+    cmd = [PY, str(REPO / "ncs" / "build.py"), str(args[0])] + [x for c_ in cores for x in ("--core", f"{c_},,,{kc}")] + ["--zephyr-base", str(cwd)] + [str(a) for a in args[1:]]
     try:
         p = subprocess.run(cmd, cwd=cwd, env=env, capture_output=True, text=True, timeout=timeout)
     except subprocess.TimeoutExpired:
